@@ -3,13 +3,14 @@
 # Verus' first-run cache. Nothing is downloaded. Safe to re-run.
 set -u
 cd "$(dirname "$0")"
+VERIF="$(pwd)"
 export CARGO_NET_OFFLINE=true
 mkdir -p .cache/kani-target evidence
 S=/var/tmp/mithril-verif/setup/tree
 mkdir -p "$S"
 rsync -a -c --delete --exclude /target --exclude /.git --exclude /docs --exclude /mithril-explorer --exclude /mithril-infra /repo/ "$S/"
 for crate in mithril-stm mithril-common mithril-resource-pool; do
-  ( cd "$S" && timeout 1500 cargo kani -p $crate --target-dir "$PWD/../../../../../verif/.cache/kani-target" --only-codegen >/dev/null 2>&1 ) || true
+  ( cd "$S" && timeout 1500 cargo kani -p $crate --target-dir "$VERIF/.cache/kani-target" --only-codegen >/dev/null 2>&1 ) || true
 done
 rm -rf /var/tmp/mithril-verif/setup
 cat > .cache/warm.rs <<'EOT'
